@@ -18,16 +18,16 @@ TRUSTED = [
     'by the harness), user functions defined and not raising',
     'C12: lark (text -> AST) and the pretty-printer of the schema generator',
 ]
-RULE = ('generated schemas with signing relations (chains, alternatives, redefinitions with different signers, the same named '
+RULE = ('generated schemas with signing relations (chains incl. a chain of three with the shared pattern constrained at every level, alternatives, redefinitions with different signers, the same named '
         'pattern in packet and key rules, constraints on shared patterns incl. options naming a pattern bound only by the packet, '
         'user functions); names = instances / near-instances of every rule alternative over the literals of the schema plus two '
-        'fresh components, some with a trailing implicit digest; ALL ordered pairs (packet, key) of these names; the check is run '
+        'fresh components, some with a trailing implicit digest, a trailing parameters digest (not ignored) or both, or a digest-typed component inside; ALL ordered pairs (packet, key) of these names; the check is run '
         'on the compiler\'s model and on the model after save/load. non-trivial = at least one pair is accepted and one refused; '
         'distinct = distinct (schema, names)')
 
 
 def cases(rng, tier):
-    n = 160 if tier == 'quick' else 7000
+    n = 260 if tier == 'quick' else 7000
     k = 3 if tier == 'quick' else 5
     fns = L.user_fns(L.FN_NAMES)
     for _ in range(n):
@@ -35,13 +35,21 @@ def cases(rng, tier):
         spec = L.Spec(schema, fns)
         if spec.static_errors():
             continue
+        asym = L.asym_variant(rng, schema) if rng.random() < 0.1 else None
+        if asym is not None:
+            # an argument-order-sensitive user function (unknown to the Lean model): judged by the oracle only
+            schema, spec = asym, L.Spec(asym, L.user_fns(L.FN_NAMES + ['$first']))
         names = L.gen_sign_names(rng, schema, spec, k)
         for nm in L.gen_names(rng, schema, spec, k, maxlen=4 if tier == 'quick' else 5):
             if nm not in names:
                 names.append(nm)
         names = names[:9 if tier == 'quick' else 12]
-        dig = [rng.random() < 0.15 for _ in names]
-        yield {'schema': schema, 'names': names, 'digest': dig}
+        # trailing implicit digest (ignored), parameters digest (NOT ignored), or both (only the last one ignored)
+        dig = [rng.choice([True, True, True, 'params', 'params', 'both', 'double']) if rng.random() < 0.25 else False for _ in names]
+        case = {'schema': schema, 'names': names, 'digest': dig}
+        if asym is not None:
+            case['oracle_only'] = True
+        yield case
 
 
 def shrink(case):
@@ -69,7 +77,7 @@ def _vdet(model):
 
 def run_impl(case):
     Component, Name, compile_lvs, Checker, SemanticError, LvsModelError, DFN, bny = L.mods()
-    fns = L.user_fns(L.FN_NAMES)
+    fns = L.user_fns(L.FN_NAMES + (['$first'] if case.get('oracle_only') else []))
     spec = L.Spec(case['schema'], fns)
     res = {'token': None, 'static_errors': spec.static_errors()}
     try:
@@ -106,7 +114,7 @@ def run_impl(case):
 
 
 def model_line(case, impl):
-    if impl.get('token') is None:
+    if impl.get('token') is None or case.get('oracle_only'):
         return None
     names = [L.name_bytes(n, d) for n, d in zip(case['names'], case['digest'])]
     return 'C12 mcheck %s %s %s' % (impl['token'], L.enc_env(L.FN_NAMES), '/'.join(L.enc_name(n) for n in names))
@@ -161,6 +169,8 @@ def tags(case, impl):
         t.append('check:' + str(x))
     if any(case['digest']):
         t.append('with-digest')
+    if any(d in ('params', 'both') for d in case['digest']):
+        t.append('with-params-digest')
     exp, ka = impl.get('expected') or [], impl.get('key_alone') or []
     n = len(case['names'])
     for idx, e in enumerate(exp):
